@@ -206,6 +206,45 @@ func c15Case(c *fw.Case, typ string, allBits bool) {
 			c.Failf("wrong-length-signature-accepted", map[string]interface{}{"tampered": t, "how": f.name, "jwk": k.JWK()}, "signature of wrong length (%s) accepted", f.name)
 		}
 	}
+	// re-encodings of the same (r, s) integers at another width are signatures of the wrong length
+	if typ != gen.Ed25519 {
+		w := gen.CurveBytes(typ)
+		sigB, _ := oracle.B64DecodeStrict(strings.Split(compact, ".")[2])
+		if len(sigB) == 2*w {
+			rr, ss := sigB[:w], sigB[w:]
+			wider := append(append(append([]byte{0}, rr...), 0), ss...)
+			t, _ := tamperSegment(compact, 2, func([]byte) []byte { return wider })
+			c.Count("wrong-length-signature", 1)
+			c.Evals(1)
+			c.Sig("siglen", typ, "both-halves-widened")
+			if _, err := jwsutil.VerifyJWS(t, jwk); err == nil {
+				c.Failf("wrong-length-signature-accepted", map[string]interface{}{"tampered": t, "how": "r and s each prefixed with a zero byte", "jwk": k.JWK()}, "signature re-encoded at width+1 accepted")
+			}
+			// narrower: needs a signature whose r and s both start with a zero byte (P-521: one in four)
+			tries := 1
+			if typ == gen.P521 {
+				tries = 40
+			}
+			cur := compact
+			for i := 0; i < tries; i++ {
+				sb, _ := oracle.B64DecodeStrict(strings.Split(cur, ".")[2])
+				if len(sb) == 2*w && sb[0] == 0 && sb[w] == 0 {
+					narrow := append(append([]byte{}, sb[1:w]...), sb[w+1:]...)
+					t2, _ := tamperSegment(cur, 2, func([]byte) []byte { return narrow })
+					c.Count("narrowed-signature", 1)
+					c.Evals(1)
+					c.Sig("siglen", typ, "both-halves-narrowed")
+					if _, err := jwsutil.VerifyJWS(t2, jwk); err == nil {
+						c.Failf("wrong-length-signature-accepted", map[string]interface{}{"original": cur, "tampered": t2, "how": "leading zero byte stripped from r and from s", "jwk": k.JWK()}, "signature re-encoded at width-1 (leading zero bytes of r and s stripped) accepted")
+					}
+					break
+				}
+				if i+1 < tries {
+					cur, _ = signutil.SignPayload(payload, signerFor(k, kid))
+				}
+			}
+		}
+	}
 	// unsupported key descriptions
 	for _, bad := range []map[string]interface{}{
 		{"kty": "RSA", "n": "AQAB", "e": "AQAB"}, {"kty": "oct", "k": "AAAA"}, {"kty": "EC", "crv": "P-224", "x": k.JWK()["x"], "y": k.JWK()["y"]},
